@@ -77,7 +77,7 @@ def get_symmetric_group_cayley_table(n:int, alternating:bool=False):
     n = int(n)
     assert n>=2
     alternating = bool(alternating)
-    ret = _get_symmetric_group_cayley_table_hf0(n, alternating)
+    ret = _get_symmetric_group_cayley_table_hf0(n, alternating).copy() #caller may modify the result in place
     return ret
 
 # slow, only for N<=50
